@@ -292,7 +292,7 @@ def check(prop, tier, level, rule_text, components_real, components_stub, assump
             'evaluations': total['n'],
             'distinct_nontrivial': len(total['order']),
             'rule': rule_text,
-            'samples': total['samples'][:3] or [{'note': 'no sample retained'}],
+            'samples': [_trim_sample(x) for x in total['samples'][:3]] or [{'note': 'no sample retained'}],
             'nontrivial_runs': total['nontrivial'],
             'fault_free_runs': total['fault_free'],
             'harness_limit_runs': total['limit'],
@@ -332,6 +332,25 @@ def check(prop, tier, level, rule_text, components_real, components_stub, assump
         print(f'HARNESS-ERROR property={prop} nothing executed')
         return 2
     return 1 if new_violations else 0
+
+
+def _trim_sample(sc, limit=6000):
+    """samples are for a reader to see what cases look like: long lists are cut, with a note"""
+    if len(canon(sc)) <= limit:
+        return sc
+    out = {}
+    for k, v in sc.items():
+        if isinstance(v, list) and len(v) > 12:
+            out[k] = v[:12] + [f'... {len(v) - 12} more']
+        elif isinstance(v, dict) and len(canon(v)) > 2000:
+            keys = sorted(v)[:8]
+            out[k] = {kk: v[kk] for kk in keys}
+            out[k]['...'] = f'{len(v) - len(keys)} more'
+        elif isinstance(v, str) and len(v) > 400:
+            out[k] = v[:400] + '...'
+        else:
+            out[k] = v
+    return out
 
 
 def write_replay(prop, tier, seed, sig, v):
